@@ -868,12 +868,7 @@ func unmarshalStruct(
 						// check field deprecation
 						if fieldIsDeprecated(valueType, name) {
 							// skip next value
-							var value any
-							return ctx.Unmarshal(
-								ctx.WithPath(name),
-								reflect.ValueOf(&value),
-								sink,
-							)(token)
+							return skipValue(ctx.WithPath(name), sink)(token)
 						}
 						return nil, we.With(
 							WithPath(ctx),
@@ -882,12 +877,7 @@ func unmarshalStruct(
 						)(UnmarshalError)
 					} else {
 						// skip next value
-						var value any
-						return ctx.Unmarshal(
-							ctx.WithPath(name),
-							reflect.ValueOf(&value),
-							sink,
-						)(token)
+						return skipValue(ctx.WithPath(name), sink)(token)
 					}
 
 				} else {
@@ -901,6 +891,36 @@ func unmarshalStruct(
 			},
 		)(p)
 
+	}
+	return sink
+}
+
+// skipValue consumes exactly one complete value without decoding it, so that
+// any value can be skipped (decoding into a throw-away `any` rejects some).
+func skipValue(ctx Ctx, cont Sink) Sink {
+	depth := 0
+	var sink Sink
+	sink = func(token *Token) (Sink, error) {
+		if token.Invalid() {
+			return nil, we.With(WithPath(ctx), io.ErrUnexpectedEOF)(UnmarshalError)
+		}
+		switch token.Kind {
+		case KindArray, KindObject, KindMap, KindTuple:
+			depth++
+			return sink, nil
+		case KindTypeName:
+			// the named value follows
+			return sink, nil
+		case KindArrayEnd, KindObjectEnd, KindMapEnd, KindTupleEnd:
+			if depth == 0 {
+				return nil, we.With(WithPath(ctx), UnexpectedEndToken)(UnmarshalError)
+			}
+			depth--
+		}
+		if depth > 0 {
+			return sink, nil
+		}
+		return cont, nil
 	}
 	return sink
 }
